@@ -1079,18 +1079,30 @@ def detect_quirks(w):
     """replay the two _refuted witnesses on the implementation"""
     ureg = w.ureg
     Q = ureg.Quantity
+    # a witness that does anything but reproduce its listed defect (another exception included)
+    # selects the repaired switch: whatever else is wrong is for the streams and oracles to report
     got = []
-    r = ureg.wraps(None, "m/s")(lambda a: got.append(a))
-    r(Q(F(1), "km/hour"))
-    str_float = not (exact_num(got[0]) and got[0] == F(5, 18))
+    try:
+        ureg.wraps(None, "m/s")(lambda a: got.append(a))(Q(F(1), "km/hour"))
+        str_float = len(got) == 1 and isinstance(got[0], (int, F, float)) and not isinstance(got[0], bool) \
+            and not (exact_num(got[0]) and got[0] == F(5, 18)) and abs(F(got[0]) - F(5, 18)) < F(1, 10 ** 9)
+    except Exception:                           # noqa: BLE001
+        str_float = False
     got2 = []
-    ureg.wraps(None, ["=C/B", "=B", "=C"])(lambda a, b, c: got2.append(a))(16, Q(12, "mm**2"), Q(1, "mile**2"))
-    bare_float = not (exact_num(got2[0]) and got2[0] == F(1, 161874256896))   # 16 mm**2 / mile**2
+    try:
+        ureg.wraps(None, ["=C", "=B", "=C/B"])(lambda c, b, a: got2.append(a))(Q(1, "mile**2"), Q(12, "mm**2"), 16)
+        e2 = F(1, 161874256896)                 # 16 mm**2 / mile**2
+        bare_float = len(got2) == 1 and isinstance(got2[0], (int, F, float)) and not isinstance(got2[0], bool) \
+            and not (exact_num(got2[0]) and got2[0] == e2) and abs(F(got2[0]) - e2) < e2 / 10 ** 9
+    except Exception:                           # noqa: BLE001
+        bare_float = False
     try:
         ureg.wraps(None, ["=A", "=A**-1"])(lambda a, b: None)(Q(0, "m"), Q(2, "1/m"))
         replace_mag = False
     except ZeroDivisionError:
         replace_mag = True
+    except Exception:                           # noqa: BLE001
+        replace_mag = False
     return str_float or bare_float, replace_mag, str_float, bare_float
 
 
@@ -1163,8 +1175,18 @@ def run(ck):
 
     cases, fails_all = [], []
 
+    def guarded(fn, *a):
+        """a crash of the harness itself on one plan is an outcome too: reported with the plan as replay"""
+        try:
+            return fn(*a)
+        except Exception as e:                  # noqa: BLE001
+            import traceback
+            tb = traceback.extract_tb(e.__traceback__)[-1]
+            return None, [(f"harness-exception:{type(e).__name__}",
+                           f"{type(e).__name__}: {e} at {tb.filename.rsplit('/', 1)[-1]}:{tb.lineno} while running this plan")]
+
     def add(term, plan, fails):
-        for t_ in (term if isinstance(term, list) else [term]):
+        for t_ in (term if isinstance(term, list) else ([] if term is None else [term])):
             cases.append((t_, plan))
         for key, desc in fails:
             fails_all.append((key, desc, plan))
@@ -1179,23 +1201,31 @@ def run(ck):
     for i in range(n_wraps):
         malformed = rng.random() < 0.18
         plan = gen_wraps_plan(rng, malformed)
-        term, fails = run_wraps(w, plan, quirks)
+        term, fails = guarded(run_wraps, w, plan, quirks)
         add(term, plan, fails)
+        if term is None:
+            continue
         nontriv = any(s is not None for s in plan["specs"])
         ck.case(key=("wraps", json.dumps(plan, sort_keys=True)), nontrivial=nontriv,
                 sample=plan if len(ck.samples) < 4 and nontriv else None)
         ck.count("wraps malformed" if malformed else "wraps valid")
         o = term[0].rsplit("(W", 1)[1].split(" ", 1)[0]
         ck.count("wraps outcome W" + o.rstrip(")"))
-        for k, _ in classify(plan["specs"]):
+        cl_ = classify(plan["specs"])
+        for k, _ in cl_:
             ck.count("spec " + k)
+        defat = {x: j for j, (k, x) in enumerate(cl_) if k == "def"}
+        if any(k == "dep" and any(defat.get(nm, -1) > j for nm, _ in x) for j, (k, x) in enumerate(cl_)):
+            ck.count("forward reference (dependent before its definition)")
         ck.count(f"delivery pos={len(plan['pos'])} kw={len(plan['kw'])} of {len(plan['names'])}"
                  if len(plan["names"]) <= 2 else "delivery (3-5 params)")
     for i in range(n_check):
         malformed = rng.random() < 0.15
         plan = gen_check_plan(rng, malformed)
-        term, fails = run_check(w, plan)
+        term, fails = guarded(run_check, w, plan)
         add(term, plan, fails)
+        if term is None:
+            continue
         ck.case(key=("check", json.dumps(plan, sort_keys=True)), nontrivial=any(s is not None for s in plan["dims"]),
                 sample=plan if i == 0 else None)
         ck.count("check malformed" if malformed else "check valid")
@@ -1203,7 +1233,7 @@ def run(ck):
 
     for i in range(400 if thorough else 120):
         plan = gen_context_plan(rng)
-        for key, desc in run_context(w, plan):
+        for key, desc in guarded(lambda *a: (None, run_context(*a)), w, plan)[1]:
             fails_all.append((key, desc, plan))
         ck.case(key=("context", json.dumps(plan, sort_keys=True)), nontrivial=True, sample=plan if i == 0 else None)
         ck.count("context stream (oracle only)")
